@@ -21,6 +21,7 @@ var c04Specs = []famSpec{
 	{Family: "rectilinear", Pool: 40000, PoolQ: 4000},
 	{Family: "rect-soup", Pool: 200000, PoolQ: 20000},
 	{Family: "rect-cavity", Pool: 100000, PoolQ: 10000},
+	{Family: "touching", Pool: 100000, PoolQ: 10000},
 	{Family: "nested-small", Pool: 40000, PoolQ: 2000},
 	{Family: "nested", Pool: 150000, PoolQ: 3000},
 	{Family: "nested-large", FreshQ: 3000, FreshT: 150000},
